@@ -3,7 +3,10 @@
    property statement):
      - every on-start callback runs, each once; all of them have finished
        before any on-resolve / on-load / on-end callback begins;
-     - each module identity is loaded at most once;
+     - each module identity is loaded at most once; the imports of a file are
+       resolved after the file was loaded, and each (kind, specifier,
+       attributes) of one file is resolved at most once (parseFile's resolver
+       cache);
      - on-end callbacks run one after the other in registration order, each at
        most once, after the outputs are written; all of them unless an earlier
        one fails; no resolve/load after they began. *)
@@ -14,7 +17,8 @@ Local Open Scope nat_scope.
 Inductive pevent :=
 | PSB (i : nat)                    (* on-start callback i begins *)
 | PSE (i : nat)                    (* on-start callback i ends *)
-| PRes                             (* an on-resolve callback runs *)
+| PRes                             (* an on-resolve callback runs (entry point, inject path, re-entrant build.Resolve) *)
+| PResK (importer key : nat)       (* the on-resolve callback for import `key` (kind, specifier, attributes) of the loaded file `importer` *)
 | PLoad (id : nat)                 (* the on-load callback runs for module identity id *)
 | PEB (i : nat) (written : bool)   (* on-end callback i begins; were this build's outputs on disk? *)
 | PEE (i : nat) (failed : bool).   (* on-end callback i ends *)
@@ -29,34 +33,44 @@ Record pmon := mkPM {
   pm_endNext : nat;        (* next on-end callback *)
   pm_endOpen : bool;
   pm_endStopped : bool;
-  pm_endSeen : bool }.
+  pm_endSeen : bool;
+  pm_resolved : list (nat * nat) }.  (* (importer, key) already resolved *)
 
-Definition pmon0 := mkPM [] [] [] 0 false false false.
+Fixpoint memp (a b : nat) (l : list (nat * nat)) : bool :=
+  match l with [] => false | (x, y) :: r => (Nat.eqb a x && Nat.eqb b y) || memp a b r end.
+
+Definition pmon0 := mkPM [] [] [] 0 false false false [].
 
 Definition pm_step (nS nE : nat) (m : pmon) (e : pevent) : option pmon :=
   match e with
   | PSB i =>
       if (i <? nS) && negb (memn i (pm_sb m)) && negb (pm_endSeen m)
-      then Some (mkPM (i :: pm_sb m) (pm_se m) (pm_loaded m) (pm_endNext m) (pm_endOpen m) (pm_endStopped m) (pm_endSeen m))
+      then Some (mkPM (i :: pm_sb m) (pm_se m) (pm_loaded m) (pm_endNext m) (pm_endOpen m) (pm_endStopped m) (pm_endSeen m) (pm_resolved m))
       else None
   | PSE i =>
       if memn i (pm_sb m) && negb (memn i (pm_se m))
-      then Some (mkPM (pm_sb m) (i :: pm_se m) (pm_loaded m) (pm_endNext m) (pm_endOpen m) (pm_endStopped m) (pm_endSeen m))
+      then Some (mkPM (pm_sb m) (i :: pm_se m) (pm_loaded m) (pm_endNext m) (pm_endOpen m) (pm_endStopped m) (pm_endSeen m) (pm_resolved m))
       else None
   | PRes =>
       if Nat.eqb (length (pm_se m)) nS && negb (pm_endSeen m) then Some m else None
+  | PResK imp key =>
+      if Nat.eqb (length (pm_se m)) nS && negb (pm_endSeen m) && memn imp (pm_loaded m)
+         && negb (memp imp key (pm_resolved m))
+      then Some (mkPM (pm_sb m) (pm_se m) (pm_loaded m) (pm_endNext m) (pm_endOpen m) (pm_endStopped m) (pm_endSeen m)
+                      ((imp, key) :: pm_resolved m))
+      else None
   | PLoad id =>
       if Nat.eqb (length (pm_se m)) nS && negb (pm_endSeen m) && negb (memn id (pm_loaded m))
-      then Some (mkPM (pm_sb m) (pm_se m) (id :: pm_loaded m) (pm_endNext m) (pm_endOpen m) (pm_endStopped m) (pm_endSeen m))
+      then Some (mkPM (pm_sb m) (pm_se m) (id :: pm_loaded m) (pm_endNext m) (pm_endOpen m) (pm_endStopped m) (pm_endSeen m) (pm_resolved m))
       else None
   | PEB i w =>
       if Nat.eqb (length (pm_se m)) nS && negb (pm_endOpen m) && negb (pm_endStopped m)
          && Nat.eqb i (pm_endNext m) && (i <? nE) && w
-      then Some (mkPM (pm_sb m) (pm_se m) (pm_loaded m) (pm_endNext m) true (pm_endStopped m) true)
+      then Some (mkPM (pm_sb m) (pm_se m) (pm_loaded m) (pm_endNext m) true (pm_endStopped m) true (pm_resolved m))
       else None
   | PEE i f =>
       if pm_endOpen m && Nat.eqb i (pm_endNext m)
-      then Some (mkPM (pm_sb m) (pm_se m) (pm_loaded m) (S (pm_endNext m)) false f (pm_endSeen m))
+      then Some (mkPM (pm_sb m) (pm_se m) (pm_loaded m) (S (pm_endNext m)) false f (pm_endSeen m) (pm_resolved m))
       else None
   end.
 
